@@ -59,6 +59,10 @@ T = {
  "C07": ("Static analysis of the ordering/typestate conditions durability rests on: every path that inserts message rows also writes the literal inside the same transaction closure; cache files are deleted only outside transactions and only after the row-deleting transaction committed / after the creating transaction failed / for the set difference with the database; both start-up clean-ups dominate newUser's success return and no run-time query is truncated by LIMIT n>1; *sql.Tx typestate (exactly one Commit/Rollback, Commit only on nil, rollback on panic, no escape); errors of literal writes are propagated. Atomicity of the file write itself (no temp+rename/fsync) and WAL durability settings are runtime matters and are not decided.",
          "Trusts go/ssa, the VTA call graph, SQLite for statement extraction.",
          "must-pass-through + dominance-justified effects + typestate on SSA", "DESIGN.md 4/C07"),
+
+ "C09": ("Static analysis of the structural clauses of the store: calls into the wrapped store are serialised by the per-id RWMutex in the right mode with deferred release; ids given to the unlocked SetUnchecked are freshly generated (value-origin analysis through request struct fields); pooled lock entries are published with counter 1, the counter is atomic and entryTable is accessed under its mutex; errors of every integrity-relevant read/write and of block authentication are propagated; the raw store is not used outside the package except the start-up scan; Set opens with O_CREATE|O_TRUNC. Byte-exact round trip, corruption-detection strength and listing are not decided.",
+         "Trusts go/ssa, lock-region analysis, value-origin walk.",
+         "lock/typestate pairing + value-origin (T-SOURCE) + error-propagation (T-NODROP) + constant-flag check", "DESIGN.md 4/C09"),
 }
 NA_REASON = {}
 checks = []
